@@ -234,7 +234,7 @@ def array_cases(rng, n, ctx, classes):
         cls = classes[i % len(classes)]
         k2 = int(rng.integers(1, 3))
         k = 2 * k2
-        ops = _operands(rng, cls, k, with_cov=rng.random() < 0.2)
+        ops = _operands(rng, cls, k, with_cov=rng.random() < 0.4)
         data = np.array(ops, dtype=object).reshape(2, k2, 1)      # array_mode contracts two axes per block: a list of matrices
         m = int(rng.integers(1, 4))
         M = np.round(rng.uniform(-2, 2, size=(m, k)), 2)
@@ -275,5 +275,5 @@ def run(ctx):
     cases += expr_cases(rng, 160 if q else 1500, ctx, 'ex')
     cases += table_cases(rng, ctx, classes[:3] if q else classes)
     cases += complex_cases(rng, 60 if q else 500, ctx, classes)
-    cases += array_cases(rng, 40 if q else 300, ctx, classes)
+    cases += array_cases(rng, 70 if q else 500, ctx, classes)
     ctx.validate('DeriveTrace', cases)
